@@ -102,6 +102,12 @@ def pair_stream(name, nq, nt):
     return dict(name=name, n_quick=nq, n_thorough=nt, nontrivial=_nt_pair, compare=_pair_compare, wf_check=False)
 
 
+def _nt_c06(case, obs):
+    if not obs.startswith('BIND ok'):
+        return False
+    return any(t.split(':')[1] in ('6', '2') and t.endswith(':1') and int(t.split(':')[0]) < 90 for t in _sections(obs).get('ORDER', []))
+
+
 def chain_stream(nq, nt, nontrivial, name='chain'):
     return dict(name=name, n_quick=nq, n_thorough=nt, nontrivial=nontrivial, compare=_chain_compare, wf_check=True)
 
@@ -155,6 +161,22 @@ PROPS = {
                    'Tied to /repo by comparing the final working order and the call log.',
         level_note=CHAIN_NOTE, design_ref='DESIGN.md section 8 (C05)',
         assumptions=['plan_wf holds on the case (checked on every bound case of the run)'],
+    ),
+    'C06': dict(
+        monitor=True,
+        streams=[chain_stream(6000, 200000, _nt_c06, name='static'), chain_stream(3000, 100000, _nt_bound)],
+        rule=CHAIN_RULE + 'stream static: the same generator biased to literals, Cacheable/MustCache/Memoize/Singleton/NotCacheable providers with inputs from '
+             'literals, init arguments, other static providers or invoke arguments, init functions and sessions of 2-7 steps; C06 non-trivial: the chain binds '
+             'and includes a static injector; the monitor compares class/group of every provider, the number of calls of every provider over the session and '
+             'what init returns',
+        level_text='Theorems about the table GENERATED from characterize.go on every run: static_requires (only cacheable, non-NotCacheable functions in a static '
+                   'context are hoisted), taint_sound (a provider reading a type supplied by invoke or an earlier per-invocation provider is never hoisted), '
+                   'must_cache_or_fail, hoist_sufficient; and about the machine: static_not_rerun, done_sticky, base_frozen, first_run_sets_done (the static '
+                   'chain runs exactly in the first init / first invoke and its results are what every invocation sees); Coq, no axioms. The table facts are '
+                   'vm_compute checks over the generated Registry.v, so editing the table re-checks them.',
+        level_note=CHAIN_NOTE + ' tools/regen pins the source text of the simple predicates and fails closed on unrecognised table statements.',
+        design_ref='DESIGN.md section 8 (C06)',
+        assumptions=['sync.Once semantics for concurrent first invocations: see C10'],
     ),
     'C07': dict(
         monitor=True,
